@@ -15,6 +15,9 @@ Oracle on the implementation alone:
   * tags: a list of CLOSED tags (parentheses balance, no comma outside them; dynamic {expression} tags with calls nested to
     depth 3, commas at any depth, string literals holding commas / parentheses / braces) joined by commas parses to exactly
     those tags (in abstract files and in a dedicated stream of one-rule files; Props/C17 `tags_exactly_the_stated`);
+  * expressions whose TEXT does not balance: 30 % of all match / let / field / variable / filter expressions hold a string literal with a
+    lone parenthesis / bracket / brace / quote (`contains("PAYPAL (")`, `regex("\\(REFUND")`, `contains(":(")`); an order stream renders
+    1-3-section files once for every position the match / filter line can take in its section - each must parse to the same content;
   * the rejection list: missing match / filter, unknown property, malformed let / field / priority,
     syntactically invalid expression ⇒ ParseError carrying the expected line number;
   * command level: `python -m tally up` on a budget whose merchants.rules does not parse must tell the
@@ -221,20 +224,63 @@ def wild_tags_value(r):
     return v
 
 
+# ------------------------------------------------------------------ expressions whose TEXT does not balance
+# An expression is one line, and where it ends is decided by the line, not by what is inside it: a string literal may hold an opening
+# parenthesis without its partner (a merchant text `PAYPAL (`, an escaped regex parenthesis `\\(REFUND`, a smiley), brackets, braces,
+# the other kind of quote, an escaped quote, `#`, `:` and `=`.  All of these are valid expressions (CPython's own grammar, checked on
+# every run in `pool_selfcheck`); counted naively their delimiters do not balance, in either direction.
+UNBAL_STRS = ['"PAYPAL ("', '"\\\\(REFUND"', '"\\(REFUND"', '":("', '")"', '"a) or (b"', '"SQ *("', '"(("', '"))("', '"["', '"]"', '"[x"', '"{"', '"}"',
+              '"{k"', '"it\'s"', "'say \"hi'", '"a\\"b("', "'('", "')'", '"(\'"', '"x (1 of 2"', '":)"', '"=("', '"# ("', '"\\\\"', '"(" ")"',
+              '"((((("', '")))"', '"[[("', '"}])"', '", ("', "'\"('"]
+M_UNBAL_TMPL = ['contains(%s)', 'regex(%s)', 'startswith(%s)', 'anyof("A", %s)', 'field.memo == %s', '%s in description', 'contains(%s) and amount > 5',
+                'contains(%s) or contains("SAD")', 'not contains(%s)', 'extract(%s)', 'anyof(%s, "B")', 'contains(%s) and contains(%s)']
+V_UNBAL_TMPL = ['category == %s', 'subcategory == %s', 'merchant == %s and months >= 2', '%s in tags', 'category == %s or category == %s',
+                'total > 10 and category != %s']
+
+
+def delimiter_balance(e):
+    """(parentheses, brackets, braces, double quotes, single quotes) counted naively over the text"""
+    return (e.count('(') - e.count(')'), e.count('[') - e.count(']'), e.count('{') - e.count('}'), e.count('"') % 2, e.count("'") % 2)
+
+
+def gen_expr(r, kind, share=0.3):
+    """an expression for a match / let / field / variable / filter line: from the plain pool, or (30 %) one with a string literal
+    whose delimiters do not balance"""
+    pool, tmpls = (M_OK, M_UNBAL_TMPL) if kind == 'm' else (V_OK, V_UNBAL_TMPL)
+    a, b, t, plain, u = r.choice(UNBAL_STRS), r.choice(UNBAL_STRS), r.choice(tmpls), r.choice(pool), r.random()
+    if u >= share:
+        return plain
+    return t % ((a, b) if t.count('%s') == 2 else a)
+
+
+def pool_selfcheck():
+    """every expression the generator can produce is an expression of CPython's grammar (judged without tally's code)"""
+    bad = []
+    for kind, pool, tmpls in (('m', M_OK, M_UNBAL_TMPL), ('v', V_OK, V_UNBAL_TMPL)):
+        for t in tmpls:
+            for a in UNBAL_STRS:
+                e = t % ((a, a) if t.count('%s') == 2 else a)
+                try:
+                    ast.parse(e, mode='eval')
+                except SyntaxError:
+                    bad.append(e)
+    return bad
+
+
 # ------------------------------------------------------------------ abstract files
 
 
-def gen_mfile(r, nsec=None, rich_tags=0.5):
+def gen_mfile(r, nsec=None, rich_tags=0.5, unbal=0.3):
     top = []
     vn = r.sample(VAR_NAMES, r.choice([0, 0, 1, 2, 3]))
     for n in vn:
-        top.append(('var', n, r.choice(M_OK)))
+        top.append(('var', n, gen_expr(r, 'm', unbal)))
     for n in r.sample(TR_NAMES, r.choice([0, 0, 1, 2])):
         top.insert(r.randint(0, len(top)), ('tr', n, r.choice(['regex_replace(field.description, "^SQ \\*", "")',
                                                                'uppercase(description)', 'trim(field.memo)'])))
     rules = []
     for _ in range(nsec or r.randint(1, 8)):
-        props = [('match', r.choice(M_OK))]
+        props = [('match', gen_expr(r, 'm', unbal))]
         tag_only = r.random() < 0.3
         tags = r.sample(TAGS, r.choice([1, 2, 3])) if (tag_only or r.random() < 0.5) else None
         if tags is not None and r.random() < rich_tags:
@@ -254,9 +300,9 @@ def gen_mfile(r, nsec=None, rich_tags=0.5):
         if r.random() < 0.35:
             props.append(('priority', r.choice(PRIOS)))
         for n in r.sample(LET_NAMES, r.choice([0, 0, 0, 1, 2, 3])):
-            props.append(('let', n, r.choice(M_OK)))
+            props.append(('let', n, gen_expr(r, 'm', unbal)))
         for n in r.sample(FIELD_NAMES, r.choice([0, 0, 0, 1, 2])):
-            props.append(('field', n, r.choice(M_OK)))
+            props.append(('field', n, gen_expr(r, 'm', unbal)))
         head, rest = props[:1], props[1:]
         r.shuffle(rest)
         props = rest[:]
@@ -265,20 +311,41 @@ def gen_mfile(r, nsec=None, rich_tags=0.5):
     return {'kind': 'm', 'top': top, 'rules': rules}
 
 
-def gen_vfile(r, nsec=None):
-    top = [('var', n, r.choice(V_OK)) for n in r.sample(VVAR_NAMES, r.choice([0, 0, 1, 2, 3]))]
+def gen_vfile(r, nsec=None, unbal=0.3):
+    top = [('var', n, gen_expr(r, 'v', unbal)) for n in r.sample(VVAR_NAMES, r.choice([0, 0, 1, 2, 3]))]
     secs = []
     for _ in range(nsec or r.randint(1, 8)):
-        props = [('filter', r.choice(V_OK))]
+        props = [('filter', gen_expr(r, 'v', unbal))]
         if r.random() < 0.4:
             props.append(('description', r.choice(DESCS)))
         for n in r.sample(VVAR_NAMES, r.choice([0, 0, 1, 2])):
-            props.append(('var', n, r.choice(V_OK)))
+            props.append(('var', n, gen_expr(r, 'v', unbal)))
         head, rest = props[:1], props[1:]
         r.shuffle(rest)
         rest.insert(r.randint(0, len(rest)), head[0])
         secs.append({'name': r.choice(V_NAMES), 'props': rest})
     return {'kind': 'v', 'top': top, 'rules': secs}
+
+
+def order_cases(r):
+    """the relative order of a section's distinct properties never changes the result - for files whose match / filter / let / field
+    expressions hold string literals with unbalanced delimiters: one abstract file of 1-3 sections, rendered once for every position
+    the match (filter) line can take among the other properties of its section (everything else in place, so lets stay in their
+    order).  -> (F, [texts])"""
+    kind = 'm' if r.random() < 0.7 else 'v'
+    F = gen_mfile(r, nsec=r.choice([1, 2, 3]), rich_tags=0.2, unbal=0.9) if kind == 'm' else gen_vfile(r, nsec=r.choice([1, 2, 3]), unbal=0.9)
+    head = 'match' if kind == 'm' else 'filter'
+    longest = max(len(R['props']) for R in F['rules'])
+    texts = []
+    for k in range(longest):
+        G = dict(F, rules=[])
+        for R in F['rules']:
+            rest = [p for p in R['props'] if p[0] != head]
+            hp = [p for p in R['props'] if p[0] == head]
+            at = min(k, len(rest))
+            G['rules'].append({'name': R['name'], 'props': rest[:at] + hp + rest[at:]})
+        texts.append(render(G, [], r)[0])
+    return F, texts
 
 
 def expected(F):
@@ -787,10 +854,37 @@ def run(ctx):
             nontriv.add(text)
     for _ in range(n_tag_lines // 3):
         cases.append(f'[W]\nmatch: x\ntags: {wild_tags_value(r)}\n'); kinds.append('m'); labels.append('tags-wild')
+    # ---- order of a section's properties, with expressions whose text does not balance (oracle + correspondence)
+    bad_pool = pool_selfcheck()
+    ctx.obligation('generator:every-pool-expression-is-an-expression-of-CPython', 'correspondence', not bad_pool, cases=len(UNBAL_STRS),
+                   error=None if not bad_pool else str(bad_pool[:3]))
+    order_stat = {'files': 0, 'texts': 0, 'texts_with_a_property_line_after_a_line_whose_text_does_not_balance': 0}
+    for _ in range(60 if ctx.quick else 1500):
+        F, texts = order_cases(r)
+        want = expected(F)
+        order_stat['files'] += 1
+        for text in texts:
+            order_stat['texts'] += 1
+            L = [l for l in text.split('\n') if l.strip()]
+            order_stat['texts_with_a_property_line_after_a_line_whose_text_does_not_balance'] += any(
+                any(delimiter_balance(a)) and not b.lstrip().startswith('[') for a, b in zip(L, L[1:]) if not a.lstrip().startswith('['))
+            got = impl_parse(F['kind'], text)
+            evals += 1
+            if got != want:
+                prop_fail.append({'class': 'layout:order-of-properties', 'kind': F['kind'], 'text': text, 'observed': got, 'required': want})
+            cases.append(text); kinds.append(F['kind']); labels.append('order')
+            nontriv.add(text)
+    unbal_hist = {}
     for i in range(nfiles):
         F = gen_mfile(r) if i % 2 == 0 else gen_vfile(r)
         kind = F['kind']
         fa = FEATURES_M if kind == 'm' else FEATURES_V
+        for e in [p[-1] for R in F['rules'] for p in R['props'] if p[0] in ('match', 'filter', 'let', 'field', 'var')] + [t[2] for t in F['top']]:
+            bal = delimiter_balance(e)
+            for nm, v in zip(('parentheses', 'brackets', 'braces', 'double-quotes', 'single-quotes'), bal):
+                if v:
+                    unbal_hist[nm] = unbal_hist.get(nm, 0) + 1
+            unbal_hist['expressions'] = unbal_hist.get('expressions', 0) + 1
         pf, n = oracle_file(F, r, 2 if ctx.quick else 4)
         prop_fail.extend(pf)
         evals += n
@@ -871,7 +965,13 @@ def run(ctx):
                        'literals holding commas / parentheses (regex groups) / braces / brackets / colons, the reference\'s own examples; joined with '
                        'varying separators, empty items, leading / trailing commas; required = the tags that were joined (cross-checked against the '
                        'harness\'s own depth-0 splitter); values that are not lists of closed tags (a parenthesis dropped / doubled / reversed) go '
-                       'through the model correspondence only; tags non-trivial = ≥ 2 tags and a comma inside parentheses')
+                       'through the model correspondence only; tags non-trivial = ≥ 2 tags and a comma inside parentheses. '
+                       'Expressions: 30 % of the match / let / field / variable / filter expressions of the abstract files hold a string literal whose '
+                       'delimiters do not balance when counted over the text (an opening or closing parenthesis alone, an escaped regex parenthesis, '
+                       'brackets, braces, the other kind of quote, an escaped quote, #, :, =; all valid by CPython\'s grammar), so every layout feature, '
+                       'corruption and the correspondence meets them; order stream: 1–3-section files (90 % such expressions) rendered once for every '
+                       'position the match / filter line can take among its section\'s properties, each must parse to the same content '
+                       '(counts in coverage.order_of_properties_stream, coverage.expressions_in_abstract_files_whose_text_does_not_balance)')
     ctx.notes['streams'] = {l: labels.count(l) for l in sorted(set(labels))}
     ctx.notes['model_error_kinds'] = err_kinds
     ctx.notes['impl_outcomes'] = outcomes
@@ -879,6 +979,8 @@ def run(ctx):
     ctx.notes['tags_lines'] = {'closed_tag_lines(oracle + correspondence)': n_tag_lines, 'wild_values(correspondence only)': n_tag_lines // 3,
                                'lines_with_feature': dict(sorted(tag_hist.items()))}
     ctx.notes['unmodelled_expression_exceptions'] = unmodelled
+    ctx.notes['order_of_properties_stream'] = order_stat
+    ctx.notes['expressions_in_abstract_files_whose_text_does_not_balance'] = dict(sorted(unbal_hist.items()))
     ctx.notes['command_runs'] = cmd_runs
     for t, k, l in list(zip(cases, kinds, labels))[len(corpus):len(corpus) + 400:97]:
         ctx.sample({'kind': k, 'stream': l, 'text': t[:400]})
@@ -894,6 +996,12 @@ def run(ctx):
             got = impl_parse('m', text)
             if got != want:
                 out.append({'class': 'tags:not-the-stated-tags', 'kind': 'm', 'text': text, 'observed': got, 'required': want})
+            F, texts = order_cases(r)
+            for text in texts:
+                got = impl_parse(F['kind'], text)
+                if got != expected(F):
+                    out.append({'class': 'layout:order-of-properties', 'kind': F['kind'], 'text': text, 'observed': got, 'required': expected(F)})
+                    break
             if len(out) >= 3:
                 break
         for label, txt in CMD_CORRUPT:
